@@ -22,6 +22,9 @@ SPEC = os.path.join(engine.VERIF, 'specs', 'p2p')
 DROP = ('res',)
 WORKERS = int(os.environ.get('VERIF_TLC_WORKERS') or 4)
 PAR = os.environ.get('VERIF_P2P_PAR') or '6'
+# development aid: VERIF_C20_ONLY=secretconn|mconn|admission restricts a run to one of the three specifications
+ONLY = (os.environ.get('VERIF_C20_ONLY') or '').lower()
+SPECNAME = {'secretconn': 'SecretConn', 'mconn': 'MConn', 'admission': 'Admission'}
 
 MC_CAP = {'1': 4096, '2': 3000}
 ADM_KEYS = {'q': ['N', 'C', 'V', 'P'], 't': ['N', 'C', 'V', 'P', 'Q']}
@@ -37,10 +40,23 @@ def run_p2p(ctx, traces, timeout=2400):
 
 
 def tlc_jobs(ctx, jobs):
-    """jobs: [(name, module, cfg, kwargs)] run concurrently; returns {name: TLCResult}."""
+    """jobs: [(name, module, cfg, kwargs)] run concurrently; kwargs with 'sim': (num, depth) make it a simulation.
+    Returns {name: TLCResult} (for simulations {name: (TLCResult, traces)})."""
     out = {}
+    gate = threading.Semaphore(int(os.environ.get('VERIF_C20_JOBS') or 3))
 
     def one(name, module, cfg, kw):
+        with gate:
+            run_one(name, module, cfg, kw)
+
+    def run_one(name, module, cfg, kw):
+        if 'sim' in kw:
+            num, depth = kw['sim']
+            r, traces = tlc.simulate_traces(SPEC, module, cfg, num, depth, ctx.seed, drop_vars=DROP, timeout=kw.get('timeout', 900))
+            ctx.add_tlc(name, r, exhaustive=False)
+            ctx.log('simulated %s: %d behaviours in %.0fs' % (name, len(traces), r.wall))
+            out[name] = (r, traces)
+            return
         out[name] = engine.tlc_check(ctx, SPEC, module, cfg, name=name, workers=WORKERS, **kw)
 
     ths = [threading.Thread(target=one, args=j) for j in jobs]
@@ -49,6 +65,8 @@ def tlc_jobs(ctx, jobs):
     for t in ths:
         t.join()
     for name, r in out.items():
+        if isinstance(r, tuple):
+            continue
         if r.violation:
             ctx.inconclusive.append('spec invariant %s violated in %s (specification defect, not a verdict about the '
                                     'code)' % (r.violation, name))
@@ -230,26 +248,32 @@ def run(ctx, replay=None):
     quick = ctx.tier == 'quick'
     seed = ctx.seed
     # ------------------------------------------------------------------ model checking
-    jobs = [('SecretConn/q', 'MC_SecretConn.tla', 'MC_SecretConn_q.cfg', dict(dump=True, timeout=900)),
-            ('MConn/q', 'MC_MConn.tla', 'MC_MConn_q.cfg', dict(timeout=900)),
-            ('Admission/q', 'MC_Admission.tla', 'MC_Admission_q.cfg', dict(dump=True, timeout=900))]
+    jobs = [('SecretConn/q', 'MC_SecretConn.tla', 'MC_SecretConn_q.cfg', dict(dump=True, timeout=1200)),
+            ('MConn/q', 'MC_MConn.tla', 'MC_MConn_q.cfg', dict(timeout=1200))]
     if quick:
-        jobs.append(('SecretConn/m', 'MC_SecretConn.tla', 'MC_SecretConn_m.cfg', dict(timeout=900)))
+        jobs.append(('Admission/q', 'MC_Admission.tla', 'MC_Admission_q.cfg', dict(dump=True, timeout=1200)))
     else:
-        jobs += [('SecretConn/t', 'MC_SecretConn.tla', 'MC_SecretConn_t.cfg', dict(timeout=2400)),
-                 ('MConn/t', 'MC_MConn.tla', 'MC_MConn_t.cfg', dict(timeout=2400)),
-                 ('Admission/t', 'MC_Admission.tla', 'MC_Admission_t.cfg', dict(timeout=2400))]
+        jobs += [('Admission/c', 'MC_Admission.tla', 'MC_Admission_c.cfg', dict(dump=True, timeout=1200)),
+                 ('SecretConn/m', 'MC_SecretConn.tla', 'MC_SecretConn_m.cfg', dict(timeout=2400)),
+                 ('SecretConn/t', 'MC_SecretConn.tla', 'MC_SecretConn_t.cfg', dict(timeout=3000)),
+                 ('MConn/t', 'MC_MConn.tla', 'MC_MConn_t.cfg', dict(timeout=3000)),
+                 ('Admission/t', 'MC_Admission.tla', 'MC_Admission_t.cfg', dict(timeout=3000))]
+    jobs += [('SecretConn/sim', 'MC_SecretConn.tla', 'MC_SecretConn_sim.cfg', dict(sim=(120 if quick else 1200, 30 if quick else 45), timeout=1800)),
+             ('MConn/sim', 'MC_MConn.tla', 'MC_MConn_q.cfg' if quick else 'MC_MConn_t.cfg', dict(sim=(700 if quick else 4000, 40), timeout=1800))]
+    if not quick:
+        jobs.append(('Admission/sim', 'MC_Admission.tla', 'MC_Admission_t.cfg', dict(sim=(250, 160), timeout=1800)))
+    if ONLY:
+        jobs = [j for j in jobs if j[0].startswith(SPECNAME[ONLY] + '/')]
+        ctx.inconclusive.append('VERIF_C20_ONLY=%s: partial run' % ONLY)
     res = tlc_jobs(ctx, jobs)
 
     # ------------------------------------------------------------------ behaviours
     sc, mc, adm = [], [], []
-    r = res['SecretConn/q']
-    if r.scratch and r.ok:
+    r = res.get('SecretConn/q')
+    if r and r.scratch and r.ok:
         sc, _ = graph_traces(ctx, r, 'q', 'secretconn', {}, max_len=40)
     tlc.cleanup(r)
-    nsim = 120 if quick else 1200
-    rs, sims = tlc.simulate_traces(SPEC, 'MC_SecretConn.tla', 'MC_SecretConn_sim.cfg', nsim, 30 if quick else 45, seed, drop_vars=DROP)
-    ctx.add_tlc('SecretConn/sim', rs, exhaustive=False)
+    sims = res.get('SecretConn/sim', (None, []))[1]
     for k, t in enumerate(sims):
         t['cfg'] = {'kind': 'secretconn'}
         t['id'] = 'secretconn-sim-%d-%d' % (seed, k)
@@ -257,10 +281,9 @@ def run(ctx, replay=None):
     for k, t in enumerate(sc):
         t['cfg']['seed'] = seed * 100003 + k
         sc_derive(t)
+    ctx.log('secretconn behaviours ready: %d' % len(sc))
 
-    nsim = 700 if quick else 4000
-    rs, sims = tlc.simulate_traces(SPEC, 'MC_MConn.tla', 'MC_MConn_q.cfg' if quick else 'MC_MConn_t.cfg', nsim, 40, seed, drop_vars=DROP)
-    ctx.add_tlc('MConn/sim', rs, exhaustive=False)
+    sims = res.get('MConn/sim', (None, []))[1]
     seen = set()
     for t in sims:
         k = workload_key(t)
@@ -272,6 +295,7 @@ def run(ctx, replay=None):
             s['post'] = {}
         t['init'] = {}
         mc.append(t)
+    ctx.log('mconn workloads: %d distinct of %d simulated' % (len(mc), len(sims)))
     ctx.rng.shuffle(mc)
     mc = mc[:150 if quick else 900]
     tampers = ['flip', 'drop', 'dup']
@@ -291,34 +315,26 @@ def run(ctx, replay=None):
                        'steps': [{'a': 'Send', 'args': [2, 1025, True], 'post': {}}, {'a': 'Send', 'args': [1, sz, True], 'post': {}},
                                  {'a': 'Send', 'args': [2, 3000, True], 'post': {}}]})
 
-    r = res['Admission/q']
-    if r.scratch and r.ok:
-        adm, g = graph_traces(ctx, r, 'q', 'admission', {'Keys': ADM_KEYS['q'], 'Self': 'N'}, max_len=260)
-        if quick:
-            # full table where the refuse list is empty; with an entry: the attempts it decides plus a sample
-            for t in adm:
-                keep = []
-                refuse = t['init'].get('refuse', [])
-                for s in t['steps']:
-                    if s['a'] == 'Connect' and refuse and s['args'][0] not in refuse and ctx.rng.random() > 0.15:
-                        refuse = s['post'].get('refuse', refuse)
-                        continue
-                    keep.append(s)
-                    refuse = s['post'].get('refuse', refuse)
-                t['steps'] = keep
+    r = res.get('Admission/q' if quick else 'Admission/c')
+    if r and r.scratch and r.ok:
+        adm, g = graph_traces(ctx, r, 'q' if quick else 'c', 'admission', {'Keys': ADM_KEYS['q'], 'Self': 'N'}, max_len=260)
     tlc.cleanup(r)
     if not quick:
-        rs, sims = tlc.simulate_traces(SPEC, 'MC_Admission.tla', 'MC_Admission_t.cfg', 250, 160, seed, drop_vars=DROP)
-        ctx.add_tlc('Admission/sim', rs, exhaustive=False)
+        sims = res.get('Admission/sim', (None, []))[1]
         for k, t in enumerate(sims):
             t['cfg'] = {'kind': 'admission', 'Keys': ADM_KEYS['t'], 'Self': 'N'}
             t['id'] = 'admission-sim-%d-%d' % (seed, k)
             adm.append(t)
-    # a few behaviours go through the node's real TCP listener and listenerRoutine
-    short = [t for t in adm if len(t['steps']) <= 60]
-    ctx.rng.shuffle(short)
-    for t in short[:8 if quick else 40]:
-        t['cfg']['path'] = 'listener'
+    # a few behaviours go again through the node's real TCP listener and listenerRoutine (state changes kept, a sample
+    # of the attempts)
+    pick = list(adm)
+    ctx.rng.shuffle(pick)
+    for t in pick[:10 if quick else 60]:
+        c = copy.deepcopy(t)
+        c['steps'] = [s for s in c['steps'] if s['a'] != 'Connect' or ctx.rng.random() < 25.0 / max(25, len(c['steps']))]
+        c['cfg']['path'] = 'listener'
+        c['id'] = t['id'] + '-listener'
+        adm.append(c)
     for k, t in enumerate(adm):
         t['cfg']['seed'] = seed * 100003 + k
     ctx.log('behaviours: secretconn %d, mconn %d, admission %d (%d connection attempts)' % (
@@ -326,10 +342,24 @@ def run(ctx, replay=None):
 
     # ------------------------------------------------------------------ binding self-test, then the real run
     selftests(ctx, sc, mc, adm)
-    traces = sc + mc + adm
-    rep = run_p2p(ctx, traces, timeout=1500 if quick else 3000)
-    confirm_timeouts(ctx, rep, traces)
-    engine.collect(ctx, rep, traces, 'p2p')
+    ctx.log('binding self-test: %s' % ctx.cov.get('binding_selftest'))
+    # attempts through the listener run in the node's own goroutine, where a panic cannot be attributed to a step (it
+    # kills the process, as it would kill a node): they run in a second process, after the attributable paths
+    direct = sc + mc + [t for t in adm if t['cfg'].get('path') != 'listener']
+    listener = [t for t in adm if t['cfg'].get('path') == 'listener']
+    rep = run_p2p(ctx, direct, timeout=1500 if quick else 3000)
+    confirm_timeouts(ctx, rep, direct)
+    engine.collect(ctx, rep, direct, 'p2p')
+    ctx.log('replayed %d behaviours, %d steps, %d failures' % (rep['traces'], rep['steps'], len(rep.get('failures') or [])))
+    if listener and not any(f.get('property') for f in (rep.get('failures') or [])):
+        rep2 = run_p2p(ctx, listener, timeout=1500)
+        confirm_timeouts(ctx, rep2, listener)
+        engine.collect(ctx, rep2, listener, 'p2p')
+        for k in ('traces', 'steps', 'checks'):
+            rep[k] += rep2[k]
+        for k, v in (rep2.get('counters') or {}).items():
+            rep.setdefault('counters', {})[k] = rep['counters'].get(k, 0) + v
+        ctx.log('replayed %d behaviours through the listener, %d failures' % (rep2['traces'], len(rep2.get('failures') or [])))
 
     cnt = rep.get('counters', {})
     extra = rep.get('extra', {})
